@@ -75,6 +75,15 @@ def match_finding(findings, v: Violation):
     return None
 
 
+def known_or_raise(pid, v: Violation):
+    """for checks that continue after a listed finding (the class is excluded from the remaining assertions of the case and counted):
+    returns the label to record; raises the violation when no committed entry lists it"""
+    e = match_finding(load_findings(pid), v)
+    if e is None:
+        raise v
+    return "known-finding:" + e["id"]
+
+
 # ------------------------------------------------------------------ shard worker
 class ShardState:
     def __init__(self, mod, findings):
@@ -105,6 +114,10 @@ class ShardState:
             self.last_violation = (case, v)
             return v
         for lab in set(labels):
+            if isinstance(lab, str) and lab.startswith("known-finding:"):
+                fid = lab.split(":", 1)[1]
+                self.known[fid] += 1
+                self.known_examples.setdefault(fid, {"case": case, "what": "listed finding observed; remaining assertions of the case continued"})
             if isinstance(lab, str) and lab.startswith("n:"):
                 _, name, num = lab.split(":", 2)   # numeric label: summed, e.g. "n:pairs:3905"
                 self.labels["n:" + name] += int(num)
@@ -365,9 +378,8 @@ def run_property(modname, tier, seed, replay=None):
     write_evidence(pid, tier, seed, getattr(mod, "LEVEL", "exploration"), coverage,
                    list(getattr(mod, "ASSUMPTIONS", [])), wall, 1 if violation else 0)
 
-    for fid, n in sorted(known.items()):
-        e = [x for x in findings if x["id"] == fid][0]
-        print(f"KNOWN-FINDING: property={pid} {e['what']} (id={fid}, hit {n}x this run)")
+    for e in findings:
+        print(f"KNOWN-FINDING: property={pid} {e['what']} (id={e['id']}, observed {known.get(e['id'], 0)}x in this run)")
     print(f"[{pid}] tier={tier} seed={seed} evaluations={total_eval} distinct_nontrivial={len(nontriv) + enum_nt} "
           f"wall={wall:.1f}s")
     top = ", ".join(f"{k}={v}" for k, v in sorted(labels.items(), key=lambda kv: -kv[1])[:14])
